@@ -7,7 +7,7 @@ from typing import Dict, List, Optional, Tuple
 from ..model import FuncInfo, dotted, norm, walk_no_nested
 from ..report import rule
 from ..settypes import SetKinds
-from ..util import key
+from ..util import allargs, key
 
 EXCLUDE_PREFIX = ("client_generators.dependencies",)  # runtime files copied verbatim, not part of generation
 
@@ -56,8 +56,8 @@ def _ordered_uses(fi: FuncInfo, sk: SetKinds):
                 for a in n.args:
                     if kind(a) in ("set", "fsorder"):
                         out.append((n, a, n.func.id))
-            elif isinstance(n.func, ast.Attribute) and n.func.attr in ("join", "extend") and n.args and kind(n.args[0]) in ("set", "fsorder"):
-                out.append((n, n.args[0], n.func.attr))
+            elif isinstance(n.func, ast.Attribute) and n.func.attr in ("join", "extend") and allargs(n) and kind(allargs(n)[0]) in ("set", "fsorder"):
+                out.append((n, allargs(n)[0], n.func.attr))
             for a in n.args:
                 if isinstance(a, ast.Starred) and kind(a.value) in ("set", "fsorder"):
                     out.append((n, a.value, "star"))
@@ -209,7 +209,7 @@ def _check_fragments_generate_sinks(ctx, fi, node, it):
     mr = repo.func("client_generators.fragments:FragmentsGenerator._get_model_rebuild_calls")
     srt = [c for c in ast.walk(mr.node) if isinstance(c, ast.Call) and isinstance(c.func, ast.Name) and c.func.id == "sorted"]
     p = mr.node.args.args[1].arg
-    if not any(c.args and isinstance(c.args[0], ast.Name) and c.args[0].id == p and any(k.arg == "key" for k in c.keywords) for c in srt):
+    if not any(allargs(c) and isinstance(allargs(c)[0], ast.Name) and allargs(c)[0].id == p and any(k.arg == "key" for k in c.keywords) for c in srt):
         return "_get_model_rebuild_calls no longer sorts the top-level fragment names by class position"
     for n in ast.walk(mr.node):
         if isinstance(n, (ast.ListComp, ast.For)):
@@ -292,8 +292,8 @@ def c10_r1(ctx):
         uses, env = _ordered_uses(fi, sk)
         for c in walk_no_nested(fi.node):
             if isinstance(c, ast.Call) and isinstance(c.func, ast.Name) and c.func.id == "sorted" and c.args \
-                    and sk.expr_kind(c.args[0], fi, env) in ("set", "fsorder"):
-                ctx.ok(f"{fi.key}: {norm(c.args[0])[:60]} ({sk.expr_kind(c.args[0], fi, env)}) is consumed through sorted()", fi.loc(c))
+                    and sk.expr_kind(allargs(c)[0], fi, env) in ("set", "fsorder"):
+                ctx.ok(f"{fi.key}: {norm(allargs(c)[0])[:60]} ({sk.expr_kind(allargs(c)[0], fi, env)}) is consumed through sorted()", fi.loc(c))
         if not uses:
             continue
         parents = parents_of(fi)
@@ -432,7 +432,7 @@ def c10_r3(ctx):
         opens = [c for c in walk_no_nested(fi.node) if isinstance(c, ast.Call) and dotted(c.func) in ("open",) or (isinstance(c, ast.Call) and isinstance(c.func, ast.Attribute) and c.func.attr == "open")]
         bad = []
         for o in opens:
-            mode = o.args[1] if len(o.args) > 1 else next((k.value for k in o.keywords if k.arg == "mode"), None)
+            mode = allargs(o)[1] if len(allargs(o)) > 1 else next((k.value for k in o.keywords if k.arg == "mode"), None)
             if not (isinstance(mode, ast.Constant) and mode.value in ("w", "wt")):
                 bad.append(norm(o)[:60])
         reads = [c for c in walk_no_nested(fi.node) if isinstance(c, ast.Call) and isinstance(c.func, ast.Attribute) and c.func.attr in ("read_text", "read", "exists")]
